@@ -10,6 +10,7 @@ use crate::{
     codec::*,
     core::{
         base_types::NonZero,
+        error::{CodecError, InvalidPacketHeader},
         properties::ReceiveMaximum,
         utils::{ByteLen, Encode, PacketID, SizedPacket},
     },
@@ -317,6 +318,10 @@ where
             RxPacket::Pubrel(pubrel) => {
                 let packet_id = pubrel.packet_identifier;
                 Self::ack::<PubcompReason>(tx, packet_id).await?
+            }
+            RxPacket::Connack(_) | RxPacket::Auth(_) => {
+                // Not expected once the connection is established, must not reach rx_action_id.
+                return Err(CodecError::from(InvalidPacketHeader).into());
             }
             other => {
                 let action_id = utils::rx_action_id(&other);
